@@ -292,8 +292,8 @@ def run_fuzz(strategy, oracle, seed, evaluations, stats, journal=None, max_len=4
                     finish(None)
 
             atheris.Setup([sys.argv[0], "-seed=%d" % (seed % (2 ** 31 - 1) + 1), "-max_len=%d" % max_len,
-                           "-len_control=0", "-runs=-1", "-timeout=0", "-rss_limit_mb=0", "-print_final_stats=0",
-                           "-verbosity=0", corpus], one)
+                           "-len_control=0", "-runs=-1", "-timeout=86400", "-rss_limit_mb=0", "-print_final_stats=0",
+                           "-verbosity=0", "-artifact_prefix=" + work + "/", corpus], one)
             atheris.Fuzz()
             code = 4
         except SystemExit:
